@@ -41,6 +41,50 @@ def mir_callers(F, callee_substr):
     return out
 
 
+ITER_BENIGN = ("Item", "next", "size_hint")
+
+
+def check_iterator_overrides(rep, F, rule, in_scope):
+    """The traversal rules decide `next`.  Every other method of the Iterator family a crate iterator overrides (fold, nth, count,
+    last, for_each, try_fold, advance_by, ...) replaces a provided method that is defined through `next`; it is accepted only if
+    it is a delegation — its MIR calls `next` of the same type or an Iterator method of an inner iterator and contains no stack /
+    arena access of its own (Vec::pop/push/extend, indexing, get_mut).  Anything else is a second traversal this check cannot
+    relate to `next`: reported as unrecognised.  in_scope(short type name) selects the iterators of the calling property."""
+    n = 0
+    for i in F.impls:
+        t = i.get("trait") or ""
+        if t not in ("std::iter::Iterator", "core::iter::Iterator", "std::iter::DoubleEndedIterator", "core::iter::DoubleEndedIterator"):
+            continue
+        ty = F.short_ty(i["self_ty"])
+        if not in_scope(ty):
+            continue
+        n += 1
+        extra = [x["name"] for x in i["items"] if x["name"] not in ITER_BENIGN]
+        if t.endswith("DoubleEndedIterator"):
+            extra = [x["name"] for x in i["items"]]
+        if not extra:
+            rep.ok(rule, ty, "defines next only")
+            continue
+        for name in extra:
+            short = "<%s as %s>::%s" % (ty, t.rsplit("::", 1)[1], name)
+            path = F.short.get(short)
+            calls = []
+            for p, b in F.bodies.items():
+                if path and (p == path or p.startswith(path + "::{closure")) and b.get("mir"):
+                    calls += [(c.get("resolved") or c.get("callee") or "") for c in b["mir"]["calls"]]
+            own = [c for c in calls if c.rsplit("::", 1)[-1] in ("pop", "push", "extend", "index", "index_mut", "get_mut", "insert", "remove", "swap_remove", "truncate", "drain")]
+            deleg = [c for c in calls if "Iterator" in c or c.rsplit("::", 1)[-1] in ("next", "next_back", name)]
+            if path and deleg and not own:
+                rep.ok(rule, short, "override delegates to next / an inner iterator", sample={"calls": sorted(set(deleg))[:4]})
+            else:
+                rep.bad(rule, short, "override-not-delegating", "%s overrides the provided method `%s` with a traversal of its own (stack / arena access: %s): "
+                        "the traversal rules decide `next` only and cannot relate this second traversal to it — the entries it yields "
+                        "(for_each, count, last, sum, skip(n).for_each ... go through it) are not covered"
+                        % (short, name, sorted(set(c.rsplit("::", 2)[-2] + "::" + c.rsplit("::", 1)[-1] for c in own)) or "none recognised"),
+                        kind="unrecognised", config=F.config)
+    return n
+
+
 def functions_entered(paths):
     s = set()
     for p in paths:
@@ -570,19 +614,29 @@ def check_primitives(rep, F, rule, which):
             calls = [n for n, ps in find_all(body, lambda n: n["k"] == "Call")]
             names = [n["fun"].get("name") for n in calls if n["fun"]["k"] == "FnRef"]
             # form A: explicit bounds check + pointer offset by idx;  form B: Vec::index_mut / builtin index (bounds-checked by Vec)
+            def norm_cond(c):
+                """(binary comparison, negated?) behind any number of `!`"""
+                neg = False
+                while c["k"] == "Unary" and c.get("op") == "Not":
+                    neg = not neg
+                    c = c["e"]
+                return (c, neg) if c["k"] == "Binary" and c["op"] in ("Ge", "Gt", "Lt", "Le") else (None, neg)
+
             def oob_branch(g):
                 """the branch of `if` g taken exactly when idx >= len, or None if the test is not that comparison"""
-                c = g["cond"]
+                c, neg = norm_cond(g["cond"])
                 li, ri = idx in _vars(c["l"]), idx in _vars(c["r"])
                 if li == ri:
                     return None
                 op = c["op"] if li else {"Ge": "Le", "Le": "Ge", "Gt": "Lt", "Lt": "Gt"}[c["op"]]     # normalise to  idx <op> len
+                if neg:
+                    op = {"Ge": "Lt", "Lt": "Ge", "Gt": "Le", "Le": "Gt"}[op]
                 if op == "Ge":
                     return g["then"]
                 if op == "Lt":
                     return g.get("else")
                 return None
-            guards = [n for n, ps in find_all(body, lambda n: n["k"] == "If" and n["cond"]["k"] == "Binary" and n["cond"]["op"] in ("Ge", "Gt", "Lt", "Le"))
+            guards = [n for n, ps in find_all(body, lambda n: n["k"] == "If" and norm_cond(n["cond"])[0] is not None)
                       if idx in _vars(n["cond"])]
             panics = False
             for g in guards:
